@@ -4,8 +4,11 @@ package main
 // on every pool object / canonical byte string and records the outcomes for Interchange.tla.
 
 import (
-	"strings"
+	"bufio"
 	"bytes"
+	"io"
+	"strings"
+	"testing/iotest"
 	"encoding/json"
 	"fmt"
 
@@ -290,6 +293,35 @@ func c03Dec2Box(tw *TraceWriter, raw []byte) {
 	tw.Ev(J{"ev": "dec2", "level": "box", "canonR": cR, "canonSR": cS, "accR": eR == nil, "accSR": eS == nil, "equiv": equiv})
 }
 
+// pieceReader returns at most sizes[k] bytes on its k-th call
+type pieceReader struct {
+	r     io.Reader
+	sizes []int
+	k     int
+}
+
+func (p *pieceReader) Read(b []byte) (int, error) {
+	n := p.sizes[p.k%len(p.sizes)]
+	p.k++
+	if n < len(b) {
+		b = b[:n]
+	}
+	return p.r.Read(b)
+}
+
+func shortReaders(raw []byte) map[string]io.Reader {
+	m := map[string]io.Reader{
+		"half (iotest.HalfReader)":            iotest.HalfReader(bytes.NewReader(raw)),
+		"data+EOF (iotest.DataErrReader)":     iotest.DataErrReader(bytes.NewReader(raw)),
+		"pieces of 1, 7, 3, 64, 2 bytes":      &pieceReader{r: bytes.NewReader(raw), sizes: []int{1, 7, 3, 64, 2}},
+		"buffered, 16 byte buffer over halves": bufio.NewReaderSize(iotest.HalfReader(bytes.NewReader(raw)), 16),
+	}
+	if len(raw) <= 1<<16 {
+		m["one byte (iotest.OneByteReader)"] = iotest.OneByteReader(bytes.NewReader(raw))
+	}
+	return m
+}
+
 func c03Dec2File(tw *TraceWriter, raw []byte) {
 	var fR, fS *mp4.File
 	var eR, eS error
@@ -321,5 +353,28 @@ func c03Dec2File(tw *TraceWriter, raw []byte) {
 	}
 	cR, cS := canon(fR, eR), canon(fS, eS)
 	equiv := eR == nil && eS == nil && fR != nil && fS != nil && fR.Size() == fS.Size() && infoStr(fR) == infoStr(fS) && fileProjection(fR) == fileProjection(fS)
-	tw.Ev(J{"ev": "dec2", "level": "file", "canonR": cR, "canonSR": cS, "accR": eR == nil, "accSR": eS == nil, "equiv": equiv})
+	// the same bytes through readers that deliver them in pieces (a pipe, a socket, a decompressor): acceptance and the
+	// decoded structure with every start position are those of the in-memory reader
+	pieces := ""
+	if equiv {
+		want := fileProjection(fR)
+		for name, rd := range shortReaders(raw) {
+			var fX *mp4.File
+			var eX error
+			func() {
+				defer func() {
+					if r := recover(); r != nil {
+						eX = fmt.Errorf("panic: %v", r)
+					}
+				}()
+				fX, eX = mp4.DecodeFile(rd)
+			}()
+			if eX != nil || fX == nil || fileProjection(fX) != want {
+				equiv = false
+				pieces = "DecodeFile over a reader delivering " + name + " differs from the in-memory reader: " + errStr(eX)
+				break
+			}
+		}
+	}
+	tw.Ev(J{"ev": "dec2", "level": "file", "canonR": cR, "canonSR": cS, "accR": eR == nil, "accSR": eS == nil, "equiv": equiv, "pieces": pieces})
 }
